@@ -15,3 +15,4 @@ import LyModel.Props.C09
 #print axioms LyModel.Props.C09.imported_rev_restored
 #print axioms LyModel.Props.C09.nested_failure_leaves_debris
 #print axioms LyModel.Props.C09.nested_failure_reverted
+#print axioms LyModel.Props.C09.amend_arrays_restored
